@@ -95,7 +95,7 @@ func runC01(c *run.Ctx) {
 	c.Rule = "generated (schema, data graph, document, operation name, variables) tuples executed through every resolver back-end and entry point; " +
 		"oracle: independent reference executor (data and error paths) + resolver call log; non-trivial = document has >=2 nesting levels or a list, and >=2 of " +
 		"{alias, inline fragment, named fragment, list of list, several operations, variables, directives, args, __typename}; distinct by (document text, op, back-end)"
-	n := c.N(1500, 60000)
+	n := c.N(4000, 60000)
 	c.MinNontriv = n / 10
 	for i := 0; i < n && !c.TooMany(); i++ {
 		r := c.Rand(i)
